@@ -45,7 +45,8 @@ func main() {
 		Pkg:   "./cmd/c08",
 		Rule: "one evaluation = one scenario (energy rows of 3..12 slots with positive / negative / sentinel(2) / unparsable(3) readings appearing in 1..3 groups, " +
 			"per-datagram fates drop/deliver/dup/delay, 0..2 faulty sync rounds with per-connection fates refuse/reset/short/garble/pass, 0..2 decoy map entries, optional rotation or restart, one fault-free round) judged by the oracle; " +
-			"'dense' scenarios: 16..40 consecutive slots starting at a multiple of 8 of the window (or +1/+7), all originals delivered except the slot right after one or two completely received bitfield bytes and a few others, optionally one lost row rewritten by the meter after it was reported. " +
+			"'dense' scenarios: 16..40 consecutive slots starting at a multiple of 8 of the window (or +1/+7), all originals delivered except the slot right after one or two completely received bitfield bytes and a few others, optionally one lost row rewritten by the meter after it was reported; " +
+			"'twoserver' scenarios: two real servers hold the device, every original lost, round A re-sends 300..500 reports to one server while an overlapping round B is refused there and completes on the other; each server whose round completed is judged. " +
 			"Non-trivial = at least one required slot was absent on the server immediately before the final round and present after it (the recovery path was really exercised); " +
 			"distinct by (slot classes, per-slot loss history, sync fates, event).",
 		Assumptions: []string{
@@ -78,6 +79,9 @@ func main() {
 			c.Require("event.rotate", 1)
 			c.Require("event.restart", 1)
 			c.Require("dense_scenarios_judged", 20)
+			c.Require("two_server.scenarios_judged", 3)
+			c.Require("two_server.round_b_reached_other_server_while_round_a_was_resending", 2)
+			c.Require("two_server.round_b_ended_on_the_other_server", 2)
 			c.Require("dense.full_byte_then_missing_slot_before_final_round", 20)
 			c.Require("rows_rewritten_after_first_report", 3)
 			if n := c.Counter("exhaustive_scenarios_judged"); n > 0 {
@@ -106,6 +110,8 @@ func plan(tier string, seed int64) []run.Batch {
 		for i := 0; i < 24; i += 4 {
 			add("dense", i, i+4, 150)
 		}
+		add("twoserver", 0, 2, 200)
+		add("twoserver", 2, 4, 200)
 		x := int(uint64(seed)*2654435761%uint64(1<<(2*exhaustiveM))) &^ 63
 		for i := 0; i < 256; i += 64 {
 			add("exhaustive", (x+i)%(1<<(2*exhaustiveM)), (x+i)%(1<<(2*exhaustiveM))+64, 240)
@@ -117,6 +123,9 @@ func plan(tier string, seed int64) []run.Batch {
 	}
 	for i := 0; i < 400; i += 25 {
 		add("dense", i, i+25, 240)
+	}
+	for i := 0; i < 60; i += 5 {
+		add("twoserver", i, i+5, 240)
 	}
 	for i := 0; i < 1<<(2*exhaustiveM); i += 64 {
 		add("exhaustive", i, i+64, 240)
@@ -992,6 +1001,11 @@ func child(b run.Batch, r *ev.Result) {
 	fmt.Sscan(b.P("to"), &to)
 	for i := from; i < to; i++ {
 		sc := &scenario{Kind: b.Kind, Index: i}
+		if b.Kind == "twoserver" {
+			sc.Seed = b.Seed*1000003 + 600000 + int64(i)
+			runTwoServer(sc, b, r)
+			continue
+		}
 		if b.Kind == "dense" {
 			sc.Seed = b.Seed*1000003 + 300000 + int64(i)
 		} else if b.Kind == "exhaustive" {
